@@ -136,9 +136,13 @@ func exploreScenario(t *testing.T, run *ev.Run, name string, maxBound int, tot *
 	}
 	// bounds are explored cumulatively by a single run at maxBound (the DFS visits low-cost
 	// alternatives first); the completed bound is recorded.
-	budget := int(time.Until(run.Deadline()).Seconds() * schedFrac)
+	remaining := int(time.Until(run.Deadline()).Seconds() * schedFrac)
+	budget := remaining
 	if schedShare > 1 {
-		budget = budget / schedShare
+		budget = remaining / schedShare
+	}
+	if budget < 5 { // small scenarios finish in a few seconds: never starve one because many follow
+		budget = min(remaining, 5)
 	}
 	if budget < 3 {
 		run.Exhaustive = false
